@@ -154,14 +154,13 @@ CLAIMS["C19"] = {
     "technique": "contract-based deductive verification (Verus) of extracted real code (function + lifted statement)",
     "text": "Partial, unbounded proof of three of the listed rules only: (0) the `inherits` validation of "
             "CfgFileVisitor::visit_map (statements lifted verbatim, rule E3) accepts exactly the tables whose every key and "
-            "target is a listed locale and in which the default locale is not a key; (1) the normalisation statement of ConfigFile::new "
+            "target is a known locale (a listed one or the default, which is always part of the list) and in which the "
+            "default locale is not a key; (1) the normalisation statement of ConfigFile::new "
             "(lifted verbatim into a function, rule E3) puts the default locale first, keeps exactly the listed names plus "
             "the default, moves a listed default without adding it again and adds an unlisted one exactly once; (2) contain_duplicates returns None exactly when no name is "
             "listed twice and otherwise exactly the set of names listed more than once.",
     "note": "Not covered (outside both verifiers): TOML/serde deserialisation incl. required fields (serde MapAccess), file "
-            "selection, the call sites in ConfigFile::new / visit_map. Noted, not decidable here: the `inherits` validation runs "
-            "before the default is added to the list, so `inherits = {fr = \"en\"}` with an unlisted default `en` is rejected. "
-            "Assumed std contracts: slice::swap, A5 `v.iter().position(p)` (one call; vstd cannot relate the temporary "
+            "selection, the call sites in ConfigFile::new / visit_map. "Assumed std contracts: slice::swap, A5 `v.iter().position(p)` (one call; vstd cannot relate the temporary "
             "iterator to the vector in the `None` case), A2 "
             "Option::get_or_insert_with(BTreeSet::new).insert(k); C1 closure contract annotation on `|l| l == &cfg.default`.",
     "design_ref": "DESIGN.md section 8.5",
